@@ -64,6 +64,46 @@ func init() {
 			ck = append(ck, fmt.Sprintf("(%d, %s)", h, hx.LeanString(find(sig))))
 			ik = append(ik, fmt.Sprintf("(%s, %s)", hx.LeanBytes(hash), hx.LeanString(find(le))))
 		}
+		// saving a height again: under ANOTHER header the same batch also deletes the replaced header's index
+		// entry; under the SAME header (other signature: the block manager's early + final save) four puts only
+		rl := hx.NewLogDS(nil)
+		rs := storepkg.New(rl)
+		mkHdr := func(t uint64) types.SignedHeader {
+			return types.SignedHeader{Header: types.Header{BaseHeader: types.BaseHeader{Height: 7, Time: t, ChainID: "facts"}}}
+		}
+		shA, shB := mkHdr(1), mkHdr(2)
+		dd := types.Data{}
+		sig1, sig2 := types.Signature([]byte{1}), types.Signature([]byte{2})
+		count := func(from int) (atomic, puts, dels int, delKey string) {
+			for _, ws := range rl.Log[from:] {
+				atomic++
+				for _, w := range ws {
+					if w.Del {
+						dels++
+						delKey = w.Key
+					} else {
+						puts++
+					}
+				}
+			}
+			return
+		}
+		if err := rs.SaveBlockData(ctx, &shA, &dd, &sig1); err != nil {
+			return "", err
+		}
+		n1 := len(rl.Log)
+		if err := rs.SaveBlockData(ctx, &shA, &dd, &sig2); err != nil {
+			return "", err
+		}
+		sameA, sameP, sameD, _ := count(n1)
+		n2 := len(rl.Log)
+		if err := rs.SaveBlockData(ctx, &shB, &dd, &sig2); err != nil {
+			return "", err
+		}
+		otherA, otherP, otherD, otherKey := count(n2)
+		resave := fmt.Sprintf("/-- saving height 7 again under the same header: (atomic writes, puts, deletes) -/\ndef resaveSame : Nat × Nat × Nat := (%d, %d, %d)\n/-- … and under another header; the deleted key and the hash of the replaced header -/\ndef resaveOther : Nat × Nat × Nat := (%d, %d, %d)\ndef resaveDeleted : Bytes × String := (%s, %s)\n",
+			sameA, sameP, sameD, otherA, otherP, otherD, hx.LeanBytes([]byte(shA.Hash())), hx.LeanString(otherKey))
+
 		// index keys for hashes of other lengths (GetBlockByHash takes any byte string): read side is not
 		// logged, so save is the only source; the empty hash and short hashes are covered by the stream.
 
@@ -100,8 +140,7 @@ func init() {
 
 		// metadata: the node's keys, look-alikes, and keys path.Clean rewrites
 		var mk []string
-		keys := append([]string(nil), NodeMetaKeys(0, 18446744073709551615)...)
-		keys = append(keys, NodeMetaKeys(7, 1234567890)...)
+		keys := append([]string(nil), NodeMetaKeys(0, 18446744073709551615, 7, 1234567890)...)
 		keys = append(keys, trickyMetaKeys...)
 		keys = append(keys, uncleanMetaKeys...)
 		seen := map[string]bool{}
@@ -123,6 +162,23 @@ func init() {
 		for _, k := range NodeMetaKeys(3, 4) {
 			nodeKeys = append(nodeKeys, hx.LeanString(k))
 		}
+		scan, err := ScanMetaKeys()
+		if err != nil {
+			return "", err
+		}
+		var constKeys, fmtKeys, extSites, siteLines []string
+		for _, k := range scan.Const {
+			constKeys = append(constKeys, hx.LeanString(k))
+		}
+		for _, f := range scan.Formats {
+			fmtKeys = append(fmtKeys, fmt.Sprintf("(%s, %s)", hx.LeanString(f[0]), hx.LeanString(f[1])))
+		}
+		for _, e := range scan.External {
+			extSites = append(extSites, hx.LeanString(e))
+		}
+		for _, l := range scan.Sites {
+			siteLines = append(siteLines, "--   "+l)
+		}
 
 		list := func(name, ty string, items []string) {
 			fmt.Fprintf(&b, "def %s : List (%s) := [\n  %s]\n", name, ty, strings.Join(items, ",\n  "))
@@ -135,7 +191,12 @@ func init() {
 		list("indexKeys", "Bytes × String", ik)
 		list("heightValues", "Nat × Bytes", hv)
 		list("metaKeys", "String × String", mk)
-		fmt.Fprintf(&b, "/-- the metadata keys of the node for heights 3 and 4 (exported constants of pkg/store and block) -/\ndef nodeMetaKeys : List String := [%s]\n", strings.Join(nodeKeys, ", "))
+		fmt.Fprintf(&b, "-- SetMetadata/GetMetadata call sites found in the source (go/parser), with the key each resolves to:\n%s\n", strings.Join(siteLines, "\n"))
+		fmt.Fprintf(&b, "/-- constant metadata keys passed to SetMetadata/GetMetadata anywhere in the node's source -/\ndef nodeMetaConst : List String := [%s]\n", strings.Join(constKeys, ", "))
+		fmt.Fprintf(&b, "/-- per-height metadata keys: (prefix, suffix) around the decimal height -/\ndef nodeMetaFormats : List (String × String) := [%s]\n", strings.Join(fmtKeys, ", "))
+		fmt.Fprintf(&b, "/-- call sites whose key is not built from constants (file:function) -/\ndef nodeMetaExternal : List String := [%s]\n", strings.Join(extSites, ", "))
+		fmt.Fprintf(&b, "/-- the constant keys, then every per-height key for heights 3 and 4 -/\ndef nodeMetaKeys : List String := [%s]\n", strings.Join(nodeKeys, ", "))
+		b.WriteString(resave)
 		fmt.Fprintf(&b, "/-- atomic writes issued by one SaveBlockData, per sample -/\ndef saveAtomicWrites : List Nat := [%s]\n", strings.Join(batchCounts, ", "))
 		fmt.Fprintf(&b, "/-- puts inside them -/\ndef savePuts : List Nat := [%s]\n", strings.Join(batchSizes, ", "))
 		fmt.Fprintf(&b, "/-- atomic writes issued by SetHeight(5) when the recorded height is 2^64-1 -/\ndef lowerHeightWrites : Nat := %d\n", lowerWrites)
